@@ -51,7 +51,9 @@ class Module:
             raise AnalysisError(f'parse error in {relpath}: {exc}')
         self.tree = orient_comparisons(split_conditional_callees(fold_dynamic_names(unroll_literal_loops(inline_string_constants(self.tree)))))
         if os.environ.get('COPSTAT_INLINE_TEMPS', '1') != '0':
-            self.tree = inline_adjacent_temporaries(self.tree)
+            self.tree = inline_adjacent_temporaries(hoist_walrus(self.tree))
+        if os.environ.get('COPSTAT_EXPAND_IFEXP', '1') != '0':
+            self.tree = expand_statement_ifexp(self.tree)
         for node in ast.walk(self.tree):
             for child in ast.iter_child_nodes(node):
                 child._parent = node
@@ -129,6 +131,85 @@ def orient_comparisons(tree):
     for n in ast.walk(tree):
         if isinstance(n, (ast.If, ast.While, ast.IfExp, ast.Assert)):
             n.test = neg_free(n.test)
+    ast.fix_missing_locations(tree)
+    return tree
+
+
+def _stmt_blocks(node):
+    for f in ('body', 'orelse', 'finalbody'):
+        v = getattr(node, f, None)
+        if isinstance(v, list) and v and isinstance(v[0], ast.stmt):
+            yield node, f, v
+    if isinstance(node, ast.Try):
+        for h in node.handlers:
+            yield h, 'body', h.body
+
+
+def hoist_walrus(tree):
+    """Normalisation: `if <test whose first evaluated operand is (x := e)>:` becomes `x = e` followed by the test reading `x`.
+    Only `if` statements (a `while` test is re-evaluated) and only the leftmost evaluation position, so the order of evaluation is kept."""
+    def leftmost(holder, field, index=None):
+        e = getattr(holder, field) if index is None else getattr(holder, field)[index]
+        if isinstance(e, ast.NamedExpr) and isinstance(e.target, ast.Name):
+            return holder, field, index, e
+        if isinstance(e, ast.Compare):
+            return leftmost(e, 'left')
+        if isinstance(e, ast.UnaryOp):
+            return leftmost(e, 'operand')
+        if isinstance(e, ast.BoolOp):
+            return leftmost(e, 'values', 0)
+        if isinstance(e, ast.BinOp):
+            return leftmost(e, 'left')
+        if isinstance(e, ast.Call) and e.args and not isinstance(e.args[0], ast.Starred) and \
+                (isinstance(e.func, ast.Name) or (isinstance(e.func, ast.Attribute) and isinstance(e.func.value, ast.Name))):
+            return leftmost(e, 'args', 0)
+        if isinstance(e, ast.Attribute):
+            return leftmost(e, 'value')
+        if isinstance(e, ast.Subscript):
+            return leftmost(e, 'value')
+        return None
+    for node in list(ast.walk(tree)):
+        for holder, f, blk in list(_stmt_blocks(node)):
+            out = []
+            for st in blk:
+                if isinstance(st, ast.If):
+                    for _ in range(4):
+                        hit = leftmost(st, 'test')
+                        if hit is None:
+                            break
+                        h2, f2, i2, ne = hit
+                        out.append(ast.copy_location(ast.Assign(targets=[ast.Name(id=ne.target.id, ctx=ast.Store())], value=ne.value), st))
+                        ref = ast.copy_location(ast.Name(id=ne.target.id, ctx=ast.Load()), ne)
+                        if i2 is None:
+                            setattr(h2, f2, ref)
+                        else:
+                            getattr(h2, f2)[i2] = ref
+                out.append(st)
+            setattr(holder, f, out)
+    ast.fix_missing_locations(tree)
+    return tree
+
+
+def expand_statement_ifexp(tree):
+    """Normalisation: `return a if c else b` becomes `if c: return a / else: return b`; `x = a if c else b` (x a plain name or an
+    attribute of a plain name) becomes `if c: x = a / else: x = b`.  Behaviour-preserving; path-sensitive rules then see branches."""
+    import copy
+    for node in list(ast.walk(tree)):
+        for holder, f, blk in list(_stmt_blocks(node)):
+            out = []
+            for st in blk:
+                if isinstance(st, ast.Return) and isinstance(st.value, ast.IfExp):
+                    ie = st.value
+                    out.append(ast.copy_location(ast.If(test=ie.test, body=[ast.copy_location(ast.Return(value=ie.body), st)],
+                                                        orelse=[ast.copy_location(ast.Return(value=ie.orelse), st)]), st))
+                elif isinstance(st, ast.Assign) and isinstance(st.value, ast.IfExp) and len(st.targets) == 1 and \
+                        (isinstance(st.targets[0], ast.Name) or (isinstance(st.targets[0], ast.Attribute) and isinstance(st.targets[0].value, ast.Name))):
+                    ie = st.value
+                    mk = lambda v: ast.copy_location(ast.Assign(targets=[copy.deepcopy(st.targets[0])], value=v), st)
+                    out.append(ast.copy_location(ast.If(test=ie.test, body=[mk(ie.body)], orelse=[mk(ie.orelse)]), st))
+                else:
+                    out.append(st)
+            setattr(holder, f, out)
     ast.fix_missing_locations(tree)
     return tree
 
